@@ -178,7 +178,7 @@ type Proj struct {
 	Value     int64
 	CreatedAt int64
 	Status    int
-	Reason    int // -1 = none
+	Reason    int    // -1 = none
 	Atts      []PAtt // sorted by ID
 	// MPPaymentState as reported.
 	NumInFlight   int
